@@ -390,4 +390,207 @@ theorem assign_preserves_resolves (x : Consumer) (t : Time) (v key : Nat)
       rw [find_filter_ne _ _ _ hne]
       exact this
 
+/-! ### "scheduled once" through assignments; the closed invariant -/
+
+/-- the prune schedule has one entry per time (the implementation keys the store by the time) -/
+def PruneTimes (x : Consumer) : Prop := (x.prune.map (·.1)).Nodup
+
+abbrev cntK (pr : List (Time × List Nat)) (k : Nat) : Nat := (pr.flatMap (·.2)).count k
+
+theorem cntK_cons (a : Time × List Nat) (pr : List (Time × List Nat)) (k : Nat) :
+    cntK (a :: pr) k = a.2.count k + cntK pr k := by
+  simp [cntK, List.flatMap_cons, List.count_append]
+
+theorem cntK_append (a b : List (Time × List Nat)) (k : Nat) : cntK (a ++ b) k = cntK a k + cntK b k := by
+  simp [cntK, List.flatMap_append, List.count_append]
+
+theorem map_id_of_no_time (pr : List (Time × List Nat)) (t : Time) (k : Nat)
+    (h : ∀ e ∈ pr, e.1 ≠ t) :
+    (pr.map fun e => if e.1 == t then (t, e.2 ++ [k]) else e) = pr := by
+  induction pr with
+  | nil => rfl
+  | cons a rest ih =>
+    have ha : (a.1 == t) = false := by simpa using h a (by simp)
+    simp only [List.map_cons, ha, Bool.false_eq_true, if_false]
+    rw [ih (fun e he => h e (by simp [he]))]
+
+theorem cntK_map_le (pr : List (Time × List Nat)) (t : Time) (k k' : Nat)
+    (hn : (pr.map (·.1)).Nodup) :
+    cntK (pr.map fun e => if e.1 == t then (t, e.2 ++ [k]) else e) k'
+      ≤ cntK pr k' + (if k' = k then 1 else 0) := by
+  induction pr with
+  | nil => simp [cntK]
+  | cons a rest ih =>
+    simp only [List.map_cons] at hn
+    rcases List.nodup_cons.mp hn with ⟨hnot, hrest⟩
+    by_cases ha : (a.1 == t) = true
+    · have hat : a.1 = t := by simpa using ha
+      have hno : ∀ e ∈ rest, e.1 ≠ t := by
+        intro e he h
+        apply hnot; rw [hat, ← h]; exact List.mem_map.mpr ⟨e, he, rfl⟩
+      simp only [List.map_cons, ha, if_true]
+      rw [map_id_of_no_time rest t k hno, cntK_cons, cntK_cons]
+      simp only [List.count_append, List.count_singleton]
+      by_cases hk : k' = k
+      · subst hk; simp; omega
+      · have : (k == k') = false := by simp; exact fun h => hk h.symm
+        simp [hk, this]
+    · simp only [List.map_cons, ha, Bool.false_eq_true, if_false]
+      rw [cntK_cons, cntK_cons]
+      have := ih hrest
+      omega
+
+theorem cntK_filter_disjoint (pr : List (Time × List Nat)) (p q : Time × List Nat → Bool)
+    (hpq : ∀ e, ¬ (p e = true ∧ q e = true)) (k : Nat) :
+    cntK (pr.filter p) k + cntK (pr.filter q) k ≤ cntK pr k := by
+  induction pr with
+  | nil => simp [cntK]
+  | cons a rest ih =>
+    rw [List.filter_cons, List.filter_cons, cntK_cons]
+    by_cases hp : p a = true
+    · have hq : ¬ q a = true := fun h => hpq a ⟨hp, h⟩
+      simp only [hp, hq, Bool.false_eq_true, ↓reduceIte, cntK_cons]; omega
+    · by_cases hq : q a = true
+      · simp only [hp, hq, Bool.false_eq_true, ↓reduceIte, cntK_cons]; omega
+      · simp only [hp, hq, Bool.false_eq_true, ↓reduceIte]; omega
+
+/-- AppendConsumerAddrsToPrune adds one entry for the key and none for anybody else -/
+theorem cntK_pruneAppend_le (pr : List (Time × List Nat)) (t : Time) (k k' : Nat)
+    (hn : (pr.map (·.1)).Nodup) :
+    cntK (pruneAppend pr t k) k' ≤ cntK pr k' + (if k' = k then 1 else 0) := by
+  unfold pruneAppend
+  split
+  · exact cntK_map_le pr t k k' hn
+  · rw [cntK_append, cntK_append]
+    have h := cntK_filter_disjoint pr (fun e => decide (e.1 < t)) (fun e => decide (t < e.1))
+      (by intro e ⟨h1, h2⟩
+          have a1 := of_decide_eq_true h1
+          have a2 := of_decide_eq_true h2
+          exact absurd a2 (Int.not_lt.mpr (Int.le_of_lt a1))) k'
+    have hs : cntK [(t, [k])] k' = if k' = k then 1 else 0 := by
+      simp only [cntK, List.flatMap_cons, List.flatMap_nil, List.append_nil, List.count_singleton]
+      by_cases hk : k' = k
+      · subst hk; simp
+      · have : (k == k') = false := by simp; exact fun h => hk h.symm
+        simp [hk, this]
+    rw [hs]
+    omega
+
+theorem times_pruneAppend (pr : List (Time × List Nat)) (t : Time) (k : Nat)
+    (hn : (pr.map (·.1)).Nodup) : ((pruneAppend pr t k).map (·.1)).Nodup := by
+  unfold pruneAppend
+  split
+  · have : ((pr.map fun e => if e.1 == t then (t, e.2 ++ [k]) else e).map (·.1)) = pr.map (·.1) := by
+      rw [List.map_map]
+      apply List.map_congr_left
+      intro e _
+      simp only [Function.comp]
+      by_cases he : (e.1 == t) = true
+      · have : e.1 = t := by simpa using he
+        simp only [he, if_true]; exact this.symm
+      · simp only [he, Bool.false_eq_true, if_false]
+    rw [this]; exact hn
+  · simp only [List.map_append, List.map_cons, List.map_nil]
+    have hlt : ∀ a ∈ (pr.filter fun e => decide (e.1 < t)).map (·.1), a < t := by
+      intro a ha
+      rcases List.mem_map.mp ha with ⟨e, he, rfl⟩
+      exact of_decide_eq_true (List.mem_filter.mp he).2
+    have hgt : ∀ a ∈ (pr.filter fun e => decide (t < e.1)).map (·.1), t < a := by
+      intro a ha
+      rcases List.mem_map.mp ha with ⟨e, he, rfl⟩
+      exact of_decide_eq_true (List.mem_filter.mp he).2
+    have n1 : ((pr.filter fun e => decide (e.1 < t)).map (·.1)).Nodup :=
+      List.Nodup.sublist (List.Sublist.map _ List.filter_sublist) hn
+    have n2 : ((pr.filter fun e => decide (t < e.1)).map (·.1)).Nodup :=
+      List.Nodup.sublist (List.Sublist.map _ List.filter_sublist) hn
+    refine List.nodup_append.mpr ⟨List.nodup_append.mpr ⟨n1, by simp, ?_⟩, n2, ?_⟩
+    · intro a ha b hb
+      simp only [List.mem_singleton] at hb
+      subst hb
+      exact Int.ne_of_lt (hlt a ha)
+    · intro a ha b hb
+      have hb' := hgt b hb
+      rcases List.mem_append.mp ha with h | h
+      · exact Int.ne_of_lt (Int.lt_trans (hlt a h) hb')
+      · simp only [List.mem_singleton] at h
+        subst h
+        exact Int.ne_of_lt hb'
+
+theorem prune_of_assignRecord (x : Consumer) (t : Time) (v key : Nat) :
+    (assignRecord t v key x).prune = x.prune ∨
+    ∃ old, assignedKey x v = some old ∧ (assignRecord t v key x).prune = pruneAppend x.prune t old := by
+  unfold assignRecord
+  cases ho : assignedKey x v with
+  | none => left; rfl
+  | some old =>
+    by_cases hl : (x.phase == Phase.launched) = true
+    · right; exact ⟨old, rfl, by simp only [hl, if_true]⟩
+    · left; simp only [hl]; rfl
+
+/-- an assignment keeps "one entry per time" and "every waiting key is scheduled once": the only
+    key it schedules is the replaced one, which was current and therefore not waiting -/
+theorem assign_preserves_once (x : Consumer) (t : Time) (v key : Nat)
+    (hp : NotCurrent x) (ht : PruneTimes x) (ho : PruneOnce x) :
+    PruneTimes (assignRecord t v key x) ∧ PruneOnce (assignRecord t v key x) := by
+  rcases prune_of_assignRecord x t v key with h | ⟨old, hold, h⟩
+  · unfold PruneTimes PruneOnce; rw [h]; exact ⟨ht, ho⟩
+  · unfold PruneTimes PruneOnce; rw [h]
+    refine ⟨times_pruneAppend _ _ _ ht, ?_⟩
+    rw [List.nodup_iff_count]
+    intro k'
+    have hle := cntK_pruneAppend_le x.prune t old k' ht
+    have hone : cntK x.prune k' ≤ 1 := (List.nodup_iff_count.mp ho) k'
+    by_cases hk : k' = old
+    · subst hk
+      have hzero : cntK x.prune k' = 0 := by
+        apply List.count_eq_zero.mpr
+        intro hin
+        rcases List.mem_flatMap.mp hin with ⟨e, he, hke⟩
+        exact hp e he k' hke v hold
+      simp only [if_true] at hle
+      show cntK (pruneAppend x.prune t k') k' ≤ 1
+      omega
+    · simp only [hk, if_false] at hle
+      show cntK (pruneAppend x.prune t old) k' ≤ 1
+      omega
+
+theorem prune_preserves_times (x : Consumer) (now : Time) (ht : PruneTimes x) :
+    PruneTimes (pruneKeys x now) :=
+  List.Nodup.sublist (List.Sublist.map _ List.filter_sublist) ht
+
+/-- the key-index invariant of one consumer, closed under accepted assignments and pruning -/
+structure KeyInv (x : Consumer) : Prop where
+  wf : KeyWF x
+  notCurrent : NotCurrent x
+  resolves : PruneResolves x
+  times : PruneTimes x
+  once : PruneOnce x
+
+theorem keyInv_assign (s : State) (c : CId) (v key : Nat) (t : Time)
+    (hok : assignOK s c v key = true) (h : KeyInv (s.get c)) :
+    KeyInv (assignRecord t v key (s.get c)) :=
+  let ho := assign_preserves_once (s.get c) t v key h.notCurrent h.times h.once
+  { wf := assign_preserves_keyWF s c v key t hok h.wf
+    notCurrent := assign_preserves_notCurrent s c v key t hok h.wf h.notCurrent h.resolves
+    resolves := assign_preserves_resolves (s.get c) t v key h.wf h.notCurrent h.resolves
+    times := ho.1
+    once := ho.2 }
+
+theorem keyInv_prune (x : Consumer) (now : Time) (h : KeyInv x) : KeyInv (pruneKeys x now) :=
+  let a := prune_preserves_keyWF x now h.wf h.notCurrent
+  let b := prune_preserves_resolves x now h.resolves h.once
+  { wf := a.1, notCurrent := a.2, resolves := b.1, times := prune_preserves_times x now h.times, once := b.2 }
+
+/-- a freshly created consumer record satisfies it -/
+theorem keyInv_blank (x : Consumer) (hk : x.ka = []) (hp : x.prune = []) : KeyInv x where
+  wf := by intro v k h; rw [assignedKey_eq, hk] at h; cases h
+  notCurrent := by intro e he; rw [hp] at he; cases he
+  resolves := by intro e he; rw [hp] at he; cases he
+  times := by unfold PruneTimes; rw [hp]; exact List.nodup_nil
+  once := by unfold PruneOnce; rw [hp]; exact List.nodup_nil
+
+/-- non-vacuity: a launched consumer whose validator replaces its key has a waiting key -/
+example : (assignRecord 5 1 11 (assignRecord 5 1 10 { (default : Consumer) with phase := Phase.launched })).prune
+    = [(5, [10])] := by decide
+
 end ICS.Props.C05
